@@ -401,8 +401,48 @@ for _p1, _bs in ((2, ["b0", "b1"]), (3, ["b0", "b1", "b2"])):
     )
 
 
+def bounded_scaling(tier, seed):
+    """C06 (bounded): multiplying a channel by c (also very small / very large c) multiplies its density by c^2 and the
+    cross density by c, leaves coherence unchanged and scales the transfer function by 1/c; relabelling the samples with
+    a*fs multiplies frequencies and ENBW by a and divides densities by a"""
+    import numpy as np
+    from speckit import SpectrumAnalyzer
+
+    rng = np.random.default_rng(seed)
+    fails, n = [], 0
+    N = 6000
+    s0 = rng.normal(size=N)
+    x = s0 + 0.5 * rng.normal(size=N)
+    y = 0.7 * s0 + 0.5 * rng.normal(size=N)
+    kw = dict(olap=0.5, Jdes=30, Kdes=12, order=0, win="hann", scheduler="ltf")
+    base = SpectrumAnalyzer([x, y], 10.0, **kw).compute()
+    for c in (1e-12, 1e-9, 1e-3, -2.5, 1e6) if tier == "quick" else (1e-15, 1e-12, 1e-9, 1e-6, 1e-3, -2.5, 7.0, 1e6, 1e9):
+        n += 1
+        r = SpectrumAnalyzer([c * x, y], 10.0, **kw).compute()
+        bad = []
+        if np.max(np.abs(r.Gxx / (c * c) - base.Gxx) / base.Gxx) > 1e-9:
+            bad.append("Gxx does not scale by c^2")
+        if np.max(np.abs(r.Gxy / c - base.Gxy) / np.abs(base.Gxy)) > 1e-9:
+            bad.append("Gxy does not scale by c")
+        if np.max(np.abs(r.Gyy - base.Gyy) / base.Gyy) > 1e-9:
+            bad.append("Gyy changed")
+        if np.max(np.abs(r.coh - base.coh)) > 1e-9:
+            bad.append("coherence changed")
+        if np.max(np.abs(r.Hxy * c - base.Hxy) / np.abs(base.Hxy)) > 1e-9:
+            bad.append("Hxy does not scale by 1/c")
+        if bad:
+            fails.append({"label": "C06.channel_scaling", "input": {"c": c}, "detail": "; ".join(bad)})
+    for a in (0.01, 3.0, 1e4):
+        n += 1
+        r = SpectrumAnalyzer([x, y], 10.0 * a, **kw).compute()
+        if len(r.f) != len(base.f) or np.max(np.abs(r.f / a - base.f) / base.f) > 1e-9 or np.max(np.abs(r.ENBW / a - base.ENBW) / base.ENBW) > 1e-9 or np.max(np.abs(r.Gxx * a - base.Gxx) / base.Gxx) > 1e-9:
+            fails.append({"label": "C06.rate_relabelling", "input": {"a": a}, "detail": "frequencies / ENBW / densities do not scale with the sampling rate"})
+    return {"evaluations": n, "bound": "one correlated pair, N=6000, scale factors 1e-12..1e6 (1e-15..1e9 thorough), rate factors 0.01, 3, 1e4", "failures": fails[:5], "n_failures": len(fails)}
+
+
+BOUNDED = {"C06.scaling": bounded_scaling}
 PROPERTY_INFO = {
-    "C06": {"not_decided": ["sinusoid calibration A^2/2: reduces to the leakage of the window (bounded, C12)", "fs -> a*fs leaves the schedulers' L and D unchanged: relational property of the scheduler loops, bounded only"]},
+    "C06": {"bounded": ["C06.scaling"], "not_decided": ["sinusoid calibration A^2/2: reduces to the leakage of the window (bounded, C12)", "fs -> a*fs leaves the schedulers' L and D unchanged: relational property of the scheduler loops, bounded only"]},
     "C07": {"trusted": ["relational lemmas are statements about the kernel specification (specs/spec_lib.py); the kernels are tied to it by the C01 obligations"]},
     "C08": {"trusted": ["QR contract of numpy.linalg.qr: range(Q) = range(V), orthonormal columns (assumed, DESIGN 3.2)"]},
 }
